@@ -20,7 +20,7 @@ CHUNK = 4
 RULE = ('documents = sequences of <= 4 (thorough 5) items over 17 line kinds (header of each of the 6 phases, unknown header, malformed header, comment, blank, whitespace-only, '
         'one-line instruction, multi-line instruction whose here-document holds a header-like and a comment-like line, instruction with description on the previous / same line, '
         'escaped header line, act-like text line) with and without final newline; all order-preserving permutations of the phase blocks of the valid documents with <= 4 blocks; '
-        'inclusion graphs: main = every sequence of <= 3 items over {[setup], [assert], instruction, including a, including b} x 9 variants of a x 5 of b (self inclusion, a<->b cycle, '
+        'inclusion graphs: main = every sequence of <= 4 (thorough 5) items over {[setup], [assert], instruction, including a, including b} x 9 variants of a x 5 of b (self inclusion, a<->b cycle, '
         'cycle back to main, diamond, same file twice, file in sub-directory including its parent\'s sibling, missing file, phase changes inside included files); '
         'non-trivial = the document has at least one instruction or one error; distinct by construction')
 ASSUMPTIONS = [
@@ -35,7 +35,11 @@ ATTR = {'setup': 'setup_phase', 'act': 'act_phase', 'before-assert': 'before_ass
 _T = {}
 
 
+_TIER = ['quick']
+
+
 def prepare(tier):
+    _TIER[0] = tier
     cli.main_program()
     procseam.install()
     from exactly_lib.cli_default.program_modes.test_case import default_instructions_setup
@@ -424,7 +428,8 @@ def _normpath(p):
 
 def cases_main():
     out = []
-    for n in range(1, 4):
+    # length 4 is the shortest main file with two inclusions under two different explicit headers
+    for n in range(1, 5 if _TIER[0] == 'quick' else 6):
         out += list(itertools.product(range(len(MAIN_ALPHABET)), repeat=n))
     return out
 
